@@ -162,6 +162,10 @@ Definition acc_add (st : hstate) (h : bytes) : hres hstate :=
       HOk (mkHstate a m (Some a))
   end.
 
+(* if carry != nil { r.Add(carry) } (undone by RemoveBack after the round) *)
+Definition carry_in (r : node) (carry : option bytes) : hres node :=
+  match carry with None => HOk r | Some c => node_add r c end.
+
 (* the loop shared by GetMerkleHeader and Finalize; [store] = Finalize.
    Returns the final carry and the bucket. *)
 Fixpoint carry_loop (store : bool) (roots : list node) (carry : option bytes) (m : bmap bytes)
@@ -169,7 +173,7 @@ Fixpoint carry_loop (store : bool) (roots : list node) (carry : option bytes) (m
   match roots with
   | [] => HOk (carry, m)
   | r :: rest =>
-      match (match carry with None => HOk r | Some c => node_add r c end) with
+      match carry_in r carry with
       | HErr e => HErr e
       | HOk r' =>
           match rest with
